@@ -61,6 +61,12 @@ FIELD_TYPES = {
     ('SupvisorsInstanceStatus', 'stats_collector'): TOpt(TObj('StatisticsCollectorProcess')),
     # annotated float, but only ever built by HostStatisticsCompiler.add_instance from options.stats_histo (an int)
     ('HostStatisticsInstance', 'depth'): INT,
+    # C14/C04: the class-level default of local_view is None until the handshake identifies the instance
+    ('SupvisorsInstanceId', 'local_view'): TOpt(TObj('LocalNetwork')),
+    # C14/C04 ghost quantities standing for the sums the engine does not unfold (see contracts/c14.py)
+    ('SupvisorsInstanceStatus', 'ghost_load'): INT,
+    ('Context', 'ghost_node_load'): TDict(STR, INT),
+    ('Starter', 'ghost_node_requests'): TDict(STR, INT),
 }
 
 # keys of payload records (Dict[str, Any] with literal keys) -> type
@@ -88,6 +94,8 @@ REC_KEYS = {
     # state & modes publications (StateModes.serial / StateModes.update)
     'fsm_statecode': INT, 'fsm_statename': STR, 'degraded_mode': BOOL, 'discovery_mode': BOOL, 'master_identifier': STR,
     'starting_jobs': BOOL, 'stopping_jobs': BOOL, 'instance_states': TDict(STR, STR),
+    # identification handshake (C04: SupvisorsMapper.identify)
+    'network': REC, 'machine_id': STR, 'fqdn': STR,
 }
 
 EXTERNAL_TYPES = {'Element': TObj('Element'), 'Match': TObj('Match')}
@@ -168,5 +176,6 @@ def install(world):
     reg.externals['time.time'] = Builtin('ext:time.time')
     reg.externals['math.ceil'] = Builtin('ext:math.ceil')
     _install_ast(world)
+    reg.externals['supervisor.events.Tick5Event.period'] = 5    # class constant of supervisor.events.Tick5Event
     for k, v in dict(CRIT=50, ERRO=40, WARN=30, INFO=20, DEBG=10, TRAC=5, BLAT=3).items():
         reg.externals[f'supervisor.loggers.LevelsByName.{k}'] = v
